@@ -899,6 +899,10 @@ class OpGen:
             if f is not None:
                 sels.append(f)
         n = 1 + st.below(4, "n_sel")
+        if self.budget > 4 and st.chance(1, 12, "wide_selset"):
+            # now and then a wide selection set (one gather of 9+ entries)
+            n = 9 + st.below(4, "n_sel_wide")
+            self.budget += n
         if self.budget <= 0:
             n = 1
         fields = spec.type_fields(tname)
